@@ -197,6 +197,30 @@ for _pid, (_t, _x) in ADD3.items():
     CLAIMED[_pid]["technique"] += _t
     CLAIMED[_pid]["text"] += _x
 
+# fourth set of additions (rules written after the third, fully independent round of seeded changes, and D18)
+ADD4 = {
+    "C01": ("; consumer lint (bounded readers of blob streams), field-use audit of Descriptor.Data", " Also: no blob reader is consumed up to a byte count (io.CopyN and the like); inline data reaches module code only through GetData."),
+    "C02": ("; origin audit of raw bodies; re-construction reachability from the constructor's error edge", " Also: the bytes given to manifest.WithRaw are never the result of a rewriting function; a body the constructor refused is not handed to it again."),
+    "C03": ("; must-pass-through of a file read in the layout's head requests; struct-key completeness of the scheme's caches", " Also: the layout answers a head request only after looking at the blob file; what was learned about one repository's referrers API is keyed by that repository."),
+    "C04": ("; media-type table agreement shared with C03.R5", " Also: index entries of manifest type are copied as manifests (the copy's media-type switch agrees with import and export)."),
+    "C05": ("; static type of the upload source", " Also: the reader BlobCopy hands to BlobPut can seek."),
+    "C06": ("; control dependence of index removals through predicate closures; guard audit of tag comparisons", " Also: an index entry is removed only under an exact comparison of its own annotation (or digest) with what was asked for, and never matched by an empty tag; every origin of the digest the tag-delete fallback deletes is the placeholder."),
+    "C07": ("; path-element count of temp directory vs. rename destination", " Also: a temp file is created in the directory of its final name."),
+    "C08": ("; dominance of the mark store over the load of an index entry; temp-directory rule shared with C07.R5", " Also: an index entry is marked before the collector tries to load it; temp files are created where the sweep looks."),
+    "C09": ("; mark-before-load shared with C08.R8", " Also: a layout target keeps blob-typed index entries across Close."),
+    "C10": ("; struct-key completeness of the feature cache", " Also: every access to a struct-keyed cache of scheme/reg builds its key with the same fields."),
+    "C11": ("; who-may-store audit of the TLS-disabled constant", " Also: no code outside package config stores TLSDisabled into a host entry."),
+    "C12": ("; field audit of the blob download request", " Also: the blob GET declares the expected length so that a truncated body is resumed."),
+    "C13": ("; empty-tag guard audit shared with C06.R9", " Also: a push by digest into a layout cannot replace the untagged entries of other images."),
+    "C14": ("; dominance of the target head request over the source fetch; exact-before-loose lookup shared with C06.R6", " Also: the target is asked before the source manifest is fetched, on every path; the layout resolves the target tag exactly."),
+    "C16": ("; forward slice of every parsed platform", " Also: a platform parsed from a request is handed on, not dropped."),
+    "C17": ("; reachability of nested requests under an open response (reference graph + per-function must-pass-through of Close)", " Also: no function of scheme/reg sends another request while a response it obtained is still open (D18, fixed)."),
+    "C20": ("; who-may-store audit of Ref.Path", " Also: a layout directory is only ever put into a reference by the reference parsers."),
+}
+for _pid, (_t, _x) in ADD4.items():
+    CLAIMED[_pid]["technique"] += _t
+    CLAIMED[_pid]["text"] += _x
+
 def main():
     props = [json.loads(l)["id"] for l in open("/verif/properties.jsonl")]
     checks = []
